@@ -78,6 +78,7 @@ fn main() {
         match sys.as_str() {
             "cw20" => cw20::make_fixtures(&mut rng, random as usize, len, &out_path),
             "cw1" => cw1::make_fixtures(&mut rng, random as usize, len, &out_path),
+            "ics20" => ics20::make_fixtures(&mut rng, random as usize, len, &out_path),
             _ => {
                 eprintln!("no fixtures for {sys}");
                 std::process::exit(2);
